@@ -20,9 +20,10 @@ def scan(path):
     aligned = []
     problems = []
     labels = []
-    for ln, raw in enumerate(open(path), 1):
-        line = raw.split('#')[0]
-        line = re.sub(r'/\*.*?\*/', '', line).strip()
+    # block comments may span lines: blank them, keeping the line numbers
+    text = re.sub(r'/\*.*?\*/', lambda m_: '\n' * m_.group(0).count('\n'), open(path).read(), flags=re.S)
+    for ln, raw in enumerate(text.split('\n'), 1):
+        line = raw.split('#')[0].strip()
         if not line:
             continue
         if line.startswith('.'):
